@@ -327,8 +327,8 @@ def check_heavy_tail(o, case):
     """case: family 'continuous-heavy-tail:<kind>', parameters, loc, scale [, xs].
     continuous_loss / continuous_second_loss integrate up to the 1 - 1e-10 quantile only, so for these distributions the values FACING the tail
     (n, n2) miss the mass beyond it (pareto(2.5): n2 too small by 0.025, about 2%; pareto(2.1): by 3.5 of 9; infinite-variance laws: a finite number
-    instead of +inf) -- reported to the lead as a limitation of the unchanged library; exactly these two comparisons are therefore left out here.
-    Everything else is checked: the complementary values against their defining integrals over [bottom of the support, x], and finiteness, sign and
+    instead of +inf): these two comparisons fail on the unchanged library for sufficiently heavy tails and are a RECORDED KNOWN FINDING
+    (KNOWN_FINDINGS.json, signatures '<function>|heavy-tail|mass-beyond-the-1e-10-quantile-lost'). Everything else is checked as well: the complementary values against their defining integrals over [bottom of the support, x], and finiteness, sign and
     monotonicity of all four values."""
     from scipy import stats
     k = case['family'].split(':', 1)[1]; L = lf()
@@ -350,6 +350,12 @@ def check_heavy_tail(o, case):
             want = (0.5 if second else 1.0) * lower_moment(dist, x, 2 if second else 1, lo, brk)
             if abs(v[1] - want) > TOL_GENERIC * sc:
                 o.chk.fail(sig + '|heavy-tail-complementary-vs-independent-quadrature', '%s(%r, %s): complementary value %r, defining integral over [%r, x] gives %r' % (sig, x, k, v[1], lo, want), c)
+            # the value FACING the tail, from the complementary value and the moments (n = nbar - (x - E X); n2 = ((x - E X)^2 + Var X)/2 - n2bar, +inf if Var X is)
+            mean = float(dist.mean()); var = float(dist.var())
+            true_tail = (want - (x - mean)) if not second else ((0.5 * ((x - mean) ** 2 + var) - want) if math.isfinite(var) else math.inf)
+            if not (abs(v[0] - true_tail) <= max(TOL_GENERIC * sc, 1e-6 * abs(true_tail))):
+                o.chk.fail(sig + '|heavy-tail|mass-beyond-the-1e-10-quantile-lost', '%s(%r, %s%r loc=%r scale=%r): value facing the tail %r, but E-based value %r (integration stops at ppf(1 - 1e-10))'
+                           % (sig, x, k, tuple(case['parameters']), case['loc'], case['scale'], v[0], true_tail), c)
             if min(v) < -1e-9 * sc: o.chk.fail(sig + '|negative', 'returned %r' % (v,), c)
             # (where the variance is infinite, n2 = +inf and the number returned -- the integral up to the 1 - 1e-10 quantile -- is huge and only
             #  accurate to the relative precision of the quadrature: its monotonicity is not examined)
